@@ -208,7 +208,7 @@ def neardup_diag(g, n, k):
         out.append(cur)
     Ps = [[[dv[a] if a == b else 0.0 for b in range(n)] for a in range(n)] for dv in out]
     d = [base[a] ** 0.5 for a in range(n)]
-    return Ps, d
+    return Ps, d, ib
 
 
 def rnd_scales(g, n):
@@ -346,16 +346,26 @@ def check_points_linear(X, means, covs, c, n, k, stats, what, dc=0.0):
         Bs.append(B)
         mscale = max([abs(float(v)) for v in m] + [0.0])
         bscale = maxabs(B)
-        e0 = max([abs(float(v)) for v in centre] + [0.0])
-        t0 = 4 * EPS * mscale + 1e-300
-        stats["sp_first"] = max(stats.get("sp_first", 0.0), e0 / t0)
-        if e0 > t0:
-            probs.append(("first-not-mean", "%s component %d: first sigma point differs from the mean by %.3g" % (what, i, e0)))
-        ea = maxabs(asym)
-        ta = 8 * EPS * (mscale + bscale) + 1e-300
-        stats["sp_symmetry"] = max(stats.get("sp_symmetry", 0.0), ea / ta)
-        if ea > ta:
-            probs.append(("points-asymmetric", "%s component %d: columns 1+l and 1+n+l are not symmetric about the mean (%.3g)" % (what, i, ea)))
+        # row by row (a mean whose rows differ by many orders of magnitude: an error in a small row must not hide
+        # behind the largest one)
+        rows_ = len(X)
+        e0 = t0 = ea = ta = 0.0
+        w0 = wa = 0.0
+        for r_ in range(rows_):
+            mr_ = abs(float(m[r_]))
+            br_ = max([abs(float(v)) for v in B[r_]] + [0.0])
+            e0r, t0r = abs(float(centre[r_])), 4 * EPS * mr_ + 1e-300
+            ear, tar = max([abs(float(v)) for v in asym[r_]] + [0.0]), 8 * EPS * (mr_ + br_) + 1e-300
+            if e0r / t0r >= w0:
+                w0, e0, t0 = e0r / t0r, e0r, t0r
+            if ear / tar >= wa:
+                wa, ea, ta = ear / tar, ear, tar
+        stats["sp_first"] = max(stats.get("sp_first", 0.0), w0)
+        if w0 > 1.0:
+            probs.append(("first-not-mean", "%s component %d: first sigma point differs from the mean by %.3g (tolerance %.3g, row by row)" % (what, i, e0, t0)))
+        stats["sp_symmetry"] = max(stats.get("sp_symmetry", 0.0), wa)
+        if wa > 1.0:
+            probs.append(("points-asymmetric", "%s component %d: columns 1+l and 1+n+l are not symmetric about the mean (%.3g, tolerance %.3g, row by row)" % (what, i, ea, ta)))
         BBt = vlib.mmul(B, vlib.mT(B))
         P = covs[i]
         pn = max(n * maxabs(P), 1e-300)
@@ -389,9 +399,11 @@ def check_points_linear(X, means, covs, c, n, k, stats, what, dc=0.0):
 def sp_case(g, tier):
     r = g.r
     lin = r.randint(1, 5)
-    k = r.choice([1, 2, 3, 4])
-    naug = r.choice([0, 0, 1, 1, 2])
+    k = r.choice([1, 2, 3, 4, 2, 3, 5, 6, 7])
+    naug = r.choice([0, 0, 1, 1, 2, 2, 3, 4])
     nzs = [r.randint(1, 3) for _ in range(naug)]
+    if k >= 5 and naug >= 3:
+        lin = min(lin, 3)
     n0 = lin
     alpha, beta, kappa = rnd_params(g, n0 + sum(nzs))
     n = n0 + sum(nzs)
@@ -402,10 +414,16 @@ def sp_case(g, tier):
     if n0 >= 2 and r.random() < 0.12:
         k = max(k, r.choice([2, 3]))
         style, skind = "neardup-diag", "neardup"
-        Ps, d = neardup_diag(g, n0, k)
+        Ps, d, _ib = neardup_diag(g, n0, k)
     means = [[v * d[i] for i, v in enumerate(g.vec(n0))] for _ in range(k)]
     if style == "neardup-diag" and r.random() < 0.5:
         means = [list(means[0]) for _ in range(k)]
+    elif r.random() < 0.10:
+        # means far from the origin relative to the spread (|m| / sigma = 2^18 .. 2^30), in some or all rows
+        skind = skind + "+far-mean"
+        rows = [a for a in range(n0) if r.random() < 0.6] or [r.randrange(n0)]
+        e = r.randint(18, 30)
+        means = [[(v + (r.choice([-1.0, 1.0]) * 2.0 ** e * r.uniform(1.0, 2.0) * d[a] if a in rows else 0.0)) for a, v in enumerate(m_)] for m_ in means]
     Qs = []
     for z in nzs:
         _, dz = rnd_scales(g, z)
@@ -556,21 +574,39 @@ def points_stage(ctx, binary, stats, hist, only=None):
 MODES = ["gen", "gen", "sm", "asm", "mm", "amm"]
 
 
-def ut_case(g, tier, idx):
+BIG_N = [12, 15, 16, 24, 31, 32, 33]
+
+
+def ut_case(g, tier, idx, force=None):
+    """force: dict overriding mode / nx / nzs / ny / k / big (enumerated shapes)"""
     r = g.r
-    mode = r.choice(MODES)
+    force = force or {}
+    mode = force.get("mode") or r.choice(MODES)
     big = 5 if tier == "quick" else 6
     nx = r.randint(1, big)
-    k = r.choice([1, 1, 2, 3, 4])
+    k = r.choice([1, 1, 2, 3, 4, 2, 5, 6])
     if mode in ("asm", "amm"):
-        nz = 0
+        nzs = []
     else:
-        nz = r.choice([0, 0, 1, 2, 3])
+        nzs = r.choice([[], [], [1], [2], [3], [1, 1], [2, 1], [1, 2, 1], [1, 3], [2, 2, 1, 1]])
     ny = nx if mode == "asm" else r.randint(1, big)
+    large = False
+    if force.get("big") or (not force and r.random() < 0.012):
+        # long inputs: 2n+1 = 25 .. 67 sigma points per component (chunk boundaries 16, 32, 64 and +-1)
+        large = True
+        nx = r.choice(BIG_N) - sum(nzs)
+        k = r.choice([1, 2])
+        ny = nx if mode == "asm" else r.randint(1, 3)
+    nx, ny, k = force.get("nx", nx), force.get("ny", ny), force.get("k", k)
+    if "nzs" in force:
+        nzs = force["nzs"] if mode not in ("asm", "amm") else []
+    if mode == "asm":
+        ny = nx
+    nz = sum(nzs)
     n = nx + nz
     alpha, beta, kappa = rnd_params(g, n)
     valid = True
-    if mode in ("gen", "mm", "amm") and r.random() < 0.15:
+    if mode in ("gen", "mm", "amm") and r.random() < 0.15 and not force:
         valid = False
     fail_data = (not valid) and r.random() < 0.5
     astyle = r.choice(["general", "general", "general", "identity", "rank1", "zero", "dyadic", "triangular"])
@@ -591,32 +627,75 @@ def ut_case(g, tier, idx):
     pstyle = r.choice(PSD_STYLES)
     skind, d = rnd_scales(g, nx)
     Ps = [scale_cov(rnd_psd(g, nx, pstyle), d) for _ in range(k)]
-    if nx >= 2 and r.random() < 0.08:
+    ib = None
+    special = r.random() if (nx >= 2 and not large) else 1.0
+    if special < 0.08:
         k = max(k, r.choice([2, 3]))
         pstyle, skind = "neardup-diag", "neardup"
-        Ps, d = neardup_diag(g, nx, k)
+        Ps, d, ib = neardup_diag(g, nx, k)
     means = [[v * d[i] for i, v in enumerate(g.vec(nx))] for _ in range(k)]
+    if special < 0.03:
+        # ... and the same mean: components that differ ONLY in the small block of the covariance
+        means = [list(means[0]) for _ in range(k)]
+        skind = "neardup+same-mean"
+    elif special < 0.14:
+        # near-duplicate means: one dominant row (2^44 .. 2^50 times the others) shared by all components, the
+        # other rows different: equal under a comparison relative to the norm of the whole vector (isApprox);
+        # the covariances are equal, isApprox-equal (neardup-diag) or unrelated
+        if ib is None:
+            ib = r.randrange(nx)
+            if r.random() < 0.6:
+                k = max(k, 2)
+                Ps = [Ps[0]] * k
+                means = [[v * d[i] for i, v in enumerate(g.vec(nx))] for _ in range(k)]
+        top = 2.0 ** r.randint(44, 50) * r.uniform(1.0, 2.0) * d[ib]
+        for m_ in means:
+            m_[ib] = top
+        skind = skind + "+neardup-mean"
+        # the dominant row is read by the last output row only (the others are sensitive at the small scale)
+        for i in range(ny - 1 if ny > 1 else ny):
+            A[i][ib] = 0.0
+    elif special < 0.26:
+        # means (or the offset b) far from the origin relative to the spread: |m| / sigma = 2^18 .. 2^30
+        e = r.randint(18, 30)
+        if r.random() < 0.7:
+            rows = [a for a in range(nx) if r.random() < 0.6] or [r.randrange(nx)]
+            means = [[(v + (r.choice([-1.0, 1.0]) * 2.0 ** e * r.uniform(1.0, 2.0) * d[a] if a in rows else 0.0)) for a, v in enumerate(m_)] for m_ in means]
+            skind = skind + "+far-mean"
+        else:
+            bv = [r.choice([-1.0, 1.0]) * 2.0 ** e * r.uniform(1.0, 2.0) for _ in range(ny)]
+            skind = skind + "+far-offset"
     Qin = []
     if nz:
-        _, dz = rnd_scales(g, nz)
-        Qin = scale_cov(rnd_psd(g, nz, r.choice(PSD_STYLES)), dz)
+        Qin = [[0.0] * nz for _ in range(nz)]
+        o_ = 0
+        for z in nzs:
+            _, dz = rnd_scales(g, z)
+            Qb = scale_cov(rnd_psd(g, z, r.choice(PSD_STYLES)), dz)
+            for a in range(z):
+                for b_ in range(z):
+                    Qin[o_ + a][o_ + b_] = Qb[a][b_]
+            o_ += z
     Nadd = None
     if mode in ("asm", "amm"):
         _, dn = rnd_scales(g, ny)
         Nadd = scale_cov(rnd_psd(g, ny, r.choice(["full", "dyadic", "singular", "zero"])), dn)
     if skind in ("tiny", "small", "large", "huge"):
         bv = [v * d[0] for v in bv]
-    if skind == "neardup":
+    if skind.startswith("neardup"):
         # rescale every input dimension to order one, so that the small variances are visible in the output
         A = [[A[i][j] / (d[j] if j < nx else 1.0) for j in range(n)] for i in range(ny)]
-    meta = {"mode": mode, "nx": nx, "nz": nz, "ny": ny, "k": k, "alpha": alpha, "beta": beta, "kappa": kappa, "valid": valid, "fail_data": fail_data,
-            "A": A, "b": bv, "means": means, "Ps": Ps, "Qin": Qin, "Nadd": Nadd, "astyle": astyle, "pstyle": pstyle, "scale": skind}
+    meta = {"mode": mode, "nx": nx, "nz": nz, "nzs": nzs, "ny": ny, "k": k, "alpha": alpha, "beta": beta, "kappa": kappa, "valid": valid, "fail_data": fail_data,
+            "A": A, "b": bv, "means": means, "Ps": Ps, "Qin": Qin, "Nadd": Nadd, "astyle": astyle, "pstyle": pstyle, "scale": skind, "large": large}
     return ut_line(meta), meta
 
 
 def ut_line(meta):
     nx, nz, ny, k = meta["nx"], meta["nz"], meta["ny"], meta["k"]
-    toks = ["ut", meta["mode"], str(nx), str(nz), str(ny), str(k), hexd(meta["alpha"]), hexd(meta["beta"]), hexd(meta["kappa"]), vcode(meta)]
+    nzs = meta.get("nzs") or ([nz] if nz else [])
+    # several appended noise blocks: "mode:z1+z2+..." (the harness augments once per block with the diagonal blocks of Qin)
+    mtok = meta["mode"] + (":" + "+".join(str(z) for z in nzs) if len(nzs) > 1 else "")
+    toks = ["ut", mtok, str(nx), str(nz), str(ny), str(k), hexd(meta["alpha"]), hexd(meta["beta"]), hexd(meta["kappa"]), vcode(meta)]
     toks += cm_tokens(meta["A"]) + [hexd(v) for v in meta["b"]]
     toks += [hexd(meta["means"][i][j]) for i in range(k) for j in range(nx)]
     toks += [hexd(meta["Ps"][i][a][b]) for i in range(k) for b in range(nx) for a in range(nx)]
@@ -912,6 +991,12 @@ def transform_stage(ctx, binary, stats, hist, notes, only=None):
         hist["ut:A=" + meta["astyle"]] = hist.get("ut:A=" + meta["astyle"], 0) + 1
         hist["ut:P=" + meta["pstyle"]] = hist.get("ut:P=" + meta["pstyle"], 0) + 1
         hist["ut:scale=" + meta.get("scale", "?")] = hist.get("ut:scale=" + meta.get("scale", "?"), 0) + 1
+        hist["ut:noise-blocks=%d" % len(meta.get("nzs") or ([1] if meta["nz"] else []))] = hist.get("ut:noise-blocks=%d" % len(meta.get("nzs") or ([1] if meta["nz"] else [])), 0) + 1
+        if meta.get("large"):
+            hist["ut:long-input(2n+1>=25)"] = hist.get("ut:long-input(2n+1>=25)", 0) + 1
+        for tag in ("far-mean", "far-offset", "neardup-mean", "same-mean"):
+            if tag in meta.get("scale", ""):
+                hist["ut:style=" + tag] = hist.get("ut:style=" + tag, 0) + 1
         nf = nonfinite_count(h) if h.startswith("ok") else 0
         try:
             if nf:
@@ -1552,6 +1637,23 @@ def run(ctx):
         gp, gt, gc = ctx.gen("points"), ctx.gen("transform"), ctx.gen("circular")
         pre["points"] = [sp_case(gp, ctx.tier) for _ in range(ctx.n(70, 2500))]
         pre["transform"] = [ut_case(gt, ctx.tier, i) for i in range(ctx.n(150, 5000))]
+        # enumerated every run: long inputs; >= 5 components with several appended noise blocks; consecutive calls
+        # whose offsets matrices have the same number of entries in different shapes (ny x (2n+1): 3x5 / 5x3, ...)
+        adjacent = []
+        for i_ in range(ctx.n(2, 12)):
+            pre["transform"].append(ut_case(gt, ctx.tier, -1, {"big": True, "mode": gt.r.choice(["gen", "sm", "asm", "mm", "amm"])}))
+        for i_ in range(ctx.n(3, 20)):
+            pre["transform"].append(ut_case(gt, ctx.tier, -1, {"k": gt.r.choice([5, 6, 7]), "nzs": gt.r.choice([[1, 1], [2, 1], [1, 2, 1], [1, 1, 1, 1]]),
+                                                              "mode": gt.r.choice(["gen", "sm", "mm"]), "nx": gt.r.randint(1, 3), "ny": gt.r.randint(1, 3)}))
+        SAME_SIZE = [((3, 2), (5, 1)), ((5, 3), (7, 2)), ((7, 1), (3, 3)), ((9, 2), (5, 4)), ((5, 4), (3, 7)), ((9, 1), (3, 4))]
+        for pair in SAME_SIZE:
+            pair = list(pair)
+            gt.r.shuffle(pair)
+            kk = gt.r.choice([1, 2])
+            md = gt.r.choice(["gen", "mm", "amm"])
+            grp = [ut_case(gt, ctx.tier, -1, {"mode": md, "ny": ny_, "nx": n_, "nzs": [], "k": kk}) for (ny_, n_) in pair]
+            pre["transform"] += grp
+            adjacent.append([c_[0] for c_ in grp])
         pre["circular"] = [circ_case(gc, ctx.tier) for _ in range(ctx.n(90, 3000))]
         # regression corpus (boundary cases and minimised past failures), run with every tier and seed
         import json
@@ -1565,8 +1667,11 @@ def run(ctx):
                 pre[cr["stage"]].insert(0, (line_, m_))
                 ncorpus += 1
         hist["corpus-cases"] = ncorpus
-        allc = [l for st_ in ("points", "transform", "circular") for (l, _m) in pre[st_]]
-        ctx.gen("interleave").r.shuffle(allc)
+        inadj = set(l for grp in adjacent for l in grp)
+        groups = [[l] for st_ in ("points", "transform", "circular") for (l, _m) in pre[st_] if l not in inadj] + adjacent
+        ctx.gen("interleave").r.shuffle(groups)
+        allc = [l for grp in groups for l in grp]
+        hist["adjacent-calls:same-element-count-different-shape"] = len(adjacent)
         outs, ilogs = vlib.run_harness(binary, allc)
         HCACHE.update(zip(allc, outs))
         inter_crash = len(ilogs)
